@@ -5,7 +5,7 @@
    fresh, read only inside their loop and never assigned.
    Each clause is forced by a counterexample (see the _refuted theorems and DESIGN.md C01). *)
 From Coq Require Import ZArith List Bool.
-From RV Require Import Base.Wire Base.Text Lang.StmtAst Lang.Transl.
+From RV Require Import Base.Wire Base.Text Lang.StmtAst Lang.Transl Lang.StmtSem.
 Import ListNotations.
 Open Scope Z_scope.
 
@@ -33,13 +33,34 @@ Definition disjoint (a b : list ident) : bool := forallb (fun x => negb (tmem x 
 Fixpoint nodupb (l : list ident) : bool :=
   match l with [] => true | x :: r => negb (tmem x r) && nodupb r end.
 
+(* the C name of a tuple temporary (StmtSem.tmp_name k = [0; k]) is not a Python identifier; since the
+   theorems quantify over arbitrary identifiers, the guard says so for every name a program declares *)
+Definition is_tmp (x : ident) : bool := match x with [0; _] => true | _ => false end.
+
 (* `x1, ..., xn = e1, ..., en` declaring n NEW names at top level of the setup part: the parser
    emits plain global declarations (no temporaries) *)
 Definition tuple_decl_ok (D : tenv) (L : list ident) (xs : list ident) (es : list ann) : bool :=
   Nat.eqb (length xs) (length es)
   && forallb (fv_ok D L) es
-  && forallb (fun x => negb (tmem x (map fst D)) && negb (tmem x L)) xs
+  && forallb (fun x => negb (tmem x (map fst D)) && negb (tmem x L) && negb (is_tmp x)) xs
   && nodupb xs.
+
+(* `x1, ..., xn = e1, ..., en` (n >= 1) assigning n names that are all declared already (swap, rotation,
+   parallel assignment), anywhere: the parser evaluates the right-hand sides into fresh temporaries
+   `__tmp_assign_k` local to the enclosing block, then assigns them in order; every name keeps its type *)
+Fixpoint tuple_asg_tys (D : tenv) (L : list ident) (xs : list ident) (es : list ann) : bool :=
+  match xs, es with
+  | [], [] => true
+  | x :: xr, e :: er =>
+      negb (tmem x L)
+      && match tlookup x D with Some t => ty_eqb t (a_ty e) | None => false end
+      && tuple_asg_tys D L xr er
+  | _, _ => false
+  end.
+Definition tuple_asg_ok (D : tenv) (L : list ident) (xs : list ident) (es : list ann) : bool :=
+  match xs with [] => false | _ => true end
+  && forallb (fv_ok D L) es
+  && tuple_asg_tys D L xs es.
 
 (* One fuelled fixpoint on statement lists, in the style of Transl.tr_block (one unit of fuel
    per statement, nested or in sequence; [Transl.bsize] is enough).  [top] = the statements
@@ -63,7 +84,7 @@ Fixpoint g_block (fuel : nat) (top : bool) (D : tenv) (L : list ident) (ps : lis
            if negb (fv_ok D L e) || tmem x L then None
            else match tlookup x D with
                 | Some t => if ty_eqb t (a_ty e) then Some D else None
-                | None => if top then Some (D ++ [(x, a_ty e)]) else None
+                | None => if top && negb (is_tmp x) then Some (D ++ [(x, a_ty e)]) else None
                 end
        | PAug x op e t_after =>
            if negb (fv_ok D L e) || tmem x L then None
@@ -71,8 +92,10 @@ Fixpoint g_block (fuel : nat) (top : bool) (D : tenv) (L : list ident) (ps : lis
                 | Some t => if ty_eqb t t_after then Some D else None
                 | None => None
                 end
-       | PTuple xs es => if top && tuple_decl_ok D L xs es then Some (D ++ combine xs (map a_ty es)) else None
-       | PBreak => Some D
+       | PTuple xs es =>
+           if tuple_asg_ok D L xs es then Some D
+           else if top && tuple_decl_ok D L xs es then Some (D ++ combine xs (map a_ty es)) else None
+       | PBreak | PContinue => Some D
        | PWrite e | PSleep e | PExprS e => if fv_ok D L e then Some D else None
        | PIf c body elifs els =>
            if fv_ok D L c && nested L body
@@ -82,7 +105,7 @@ Fixpoint g_block (fuel : nat) (top : bool) (D : tenv) (L : list ident) (ps : lis
        | PWhile c body => if fv_ok D L c && nested L body then Some D else None
        | PFor x cnt body =>
            if fv_ok D L cnt && ty_eqb (a_ty cnt) TyInt
-              && negb (tmem x (map fst D)) && negb (tmem x L)
+              && negb (tmem x (map fst D)) && negb (tmem x L) && negb (is_tmp x)
               && negb (tmem x (a_fv cnt))
               && disjoint (a_fv cnt) (assigned_in body)
               && negb (tmem x (assigned_in body))
@@ -102,7 +125,7 @@ Fixpoint anns_of (p : pstmt) : list ann :=
   | PIf c b el e => c :: go b ++ gob el ++ go e
   | PWhile c b => c :: go b
   | PFor _ c b => c :: go b
-  | PBreak => []
+  | PBreak | PContinue => []
   end.
 Definition prog_anns (p : pprog) : list ann :=
   flat_map anns_of (p_pre p) ++ match p_main p with Some b => flat_map anns_of b | None => [] end.
@@ -118,8 +141,12 @@ Definition ann_eqb (a b : ann) : bool :=
 Definition ids_consistent (p : pprog) : bool :=
   forallb (fun a => match info_of p (a_id a) with Some b => ann_eqb a b | None => false end) (prog_anns p).
 
-Definition no_top_tuple (ps : list pstmt) : bool :=
-  forallb (fun p => match p with PTuple _ _ => false | _ => true end) ps.
+(* tuple statements at top level of the `while True:` body only assign names declared before them (a tuple
+   DECLARATION there would be a set of loop() locals initialised from temporaries: outside the guard) *)
+Definition no_top_tuple (D : tenv) (ps : list pstmt) : bool :=
+  forallb (fun p => match p with
+                    | PTuple xs _ => match xs with [] => false | _ => forallb (fun x => tmem x (map fst D)) xs end
+                    | _ => true end) ps.
 
 Definition guard_ok (p : pprog) : bool :=
   ids_consistent p &&
@@ -128,7 +155,7 @@ Definition guard_ok (p : pprog) : bool :=
   | Some D =>
       match p_main p with
       | None => true
-      | Some body => no_top_tuple body &&
+      | Some body => no_top_tuple D body &&
                      match g_block (bsize body) true D [] body with Some _ => true | None => false end
       end
   end.
